@@ -37,11 +37,20 @@ deriving Repr, DecidableEq
 def Cfg.blocksize (c : Cfg) : Nat := if c.wav then 65 else 33
 def Cfg.spb (c : Cfg) : Nat := if c.wav then 320 else 160
 
-/-- `gsm610_init`, SFM_READ: `pgsm610->blocks` from `psf->datalength` -/
-def blocksOf (c : Cfg) (dlen : Nat) : Nat :=
+/-- `gsm610_init`, SFM_READ: `pgsm610->blocks` from `psf->datalength`.  `both = false` is the rule of /repo f178350: one
+    stray byte is forgiven (`datalength % blocksize == 1`) only for the 33-byte geometry ("weird AIFF specific case"), so
+    the RIFF pad byte wav.c adds to `datalength` counts as a truncated block (KF-WAV-GSM-PAD); `both = true` is the rule
+    once the conjunct `&& blocksize == GSM610_BLOCKSIZE` is dropped. -/
+def blocksOfWith (both : Bool) (c : Cfg) (dlen : Nat) : Nat :=
   if dlen % c.blocksize = 0 then dlen / c.blocksize
-  else if dlen % c.blocksize = 1 ∧ c.blocksize = 33 then dlen / c.blocksize
+  else if dlen % c.blocksize = 1 ∧ (both = true ∨ c.blocksize = 33) then dlen / c.blocksize
   else dlen / c.blocksize + 1
+
+/-- which of the two rules the tree under test has (ONE switch: set it to `true` when the repair of KF-WAV-GSM-PAD is
+    merged; every theorem below is stated for an explicit rule or for both) -/
+def padRuleBoth : Bool := false
+
+def blocksOf (c : Cfg) (dlen : Nat) : Nat := blocksOfWith padRuleBoth c dlen
 
 /-- GSM610_PRIVATE: the codec state, `block [65]`, `samples [320]` -/
 structure DSt where
@@ -86,11 +95,13 @@ def reader (c : Cfg) (file : List Byte) (dlen : Nat) : Reader :=
     src := fun k => if k < nb then fixLen c.spb (blocks.getD k []) else zeros c.spb }
 
 /-- `sf.frames` after open: the codec's count, clamped by AIFF to the COMM chunk's numSampleFrames -/
-def framesAtOpen (c : Cfg) (dlen : Nat) (hdr : Option Nat) : Nat :=
-  let f := c.spb * blocksOf c dlen
+def framesWith (both : Bool) (c : Cfg) (dlen : Nat) (hdr : Option Nat) : Nat :=
+  let f := c.spb * blocksOfWith both c dlen
   match hdr with
   | some h => if f > h then h else f
   | none => f
+
+def framesAtOpen (c : Cfg) (dlen : Nat) (hdr : Option Nat) : Nat := framesWith padRuleBoth c dlen hdr
 
 def openRead (c : Cfg) (file : List Byte) (dlen : Nat) (hdr : Option Nat) : RHandle :=
   RHandle.open (reader c file dlen) (framesAtOpen c dlen hdr)
